@@ -20,7 +20,8 @@ def make(rng):
             [(2, 'v2', ())]]                                                     # second 3 (after the pack time 2)
     if rng.random() < 0.5:
         init.append([(1, 'v1', ())])
-    packsec = rng.choice((1, 2, 2))
+    # before / between the initial commits, or "to now" (at or after the last one present when the pack starts)
+    packsec = rng.choice((1, 2, 2, len(init), len(init)))
     gc = rng.random() < 0.7
     committers = []
     for i in range(rng.randint(1, 2)):
@@ -117,10 +118,13 @@ def run(job):
         out['errors'] = {k: '%s: %s' % (type(v).__name__, str(v)[:200]) for k, v in Sc.errors.items()}
         out['switches'] = sum(1 for a, b in zip(Sc.choices, Sc.choices[1:]) if a != b)
         if out['outcome'] == 'ok' and not out['errors']:
-            out['obs'] = observe(rp)
-            st.close()
-            rp.open(create=False)
-            out['obs_reopen'] = observe(rp)
+            try:
+                out['obs'] = observe(rp)
+                st.close()
+                rp.open(create=False)
+                out['obs_reopen'] = observe(rp)
+            except Exception as ex:        # the storage left by the run cannot even be queried: an outcome, not a crash
+                out['errors']['final-queries'] = '%s: %s' % (type(ex).__name__, str(ex)[:160])
     finally:
         sched.S = None
         faultfs.YIELD_IO = False
